@@ -21,7 +21,7 @@ REQUIRED_CLASSES = ["ok"]
 RULE = ("all 48 orientation codes x RAS sizes x chunk sizes x pixel kinds "
         "{grey uint8, grey uint16, RGB uint8, two directories = 2 channels, "
         "RGB + grey directory = 4 channels} x file names {zero-padded, 12 "
-        "slices with un-padded numbers} "
+        "slices with un-padded numbers}; 16-bit slices into an 8-bit dataset "
         "x storage {flat no-gzip, deep gzip, sharded(1,1,0) for cubic "
         "chunks}, plus label stacks stored as compressed_segmentation for "
         "all 48 codes, also with 2 and 3 channels sharing their label sets (quick: 2 sizes x 2 chunk sizes x 2 pixel kinds x 1-2 "
@@ -166,6 +166,10 @@ def _eval_in(col, case, d):
     info = {"type": "image", "num_channels": nch,
             "data_type": "uint16" if kind == "uint16" else "uint8",
             "scales": [scale]}
+    if case.get("dataset_type"):
+        # pixel type wider than the dataset's: values are converted with the
+        # package's documented conversion (round, saturate - property C11)
+        info["data_type"] = case["dataset_type"]
     if case.get("encoding") == "compressed_segmentation":
         info["type"], info["data_type"] = "segmentation", "uint32"
     with open(os.path.join(dest, "info"), "w") as f:
@@ -201,6 +205,10 @@ def _eval_in(col, case, d):
         return
     if case.get("encoding") == "compressed_segmentation":
         want = want.astype("uint32")
+    if case.get("dataset_type"):
+        lim = np.iinfo(case["dataset_type"])
+        want = np.clip(want.astype(np.int64), lim.min, lim.max).astype(
+            case["dataset_type"])
     if got.shape != want.shape or got.dtype.newbyteorder("=") != want.dtype:
         col.ev(1, nontriv, "bad")
         col.violation("C15/volume/shape-or-dtype", case,
@@ -280,6 +288,13 @@ def cases(tier):
         if tier == "thorough" or i % 6 == 4:
             out.append({"code": code, "size": [4, 3, 5], "chunk": [2, 2, 2],
                         "pixels": "rgb-grey", "storage": "flat-nogzip"})
+    # 16-bit slices into an 8-bit dataset (values beyond 255 saturate)
+    for code in codes:
+        if tier == "quick" and codes.index(code) % 12 != 5:
+            continue
+        out.append({"code": code, "size": [4, 3, 5], "chunk": [2, 2, 2],
+                    "pixels": "uint16", "storage": "flat-nogzip",
+                    "dataset_type": "uint8"})
     # quick also covers the other two pixel kinds on a few codes
     if tier == "quick":
         for code in ("RAS", "LPI", "SRA", "IPL", "ASR", "PIR"):
